@@ -111,8 +111,10 @@ func Build(vx *vaxis.Vaxis, chain []Level) vaxis.Window {
 }
 
 // Items computes the text FACTS of the segments: grapheme clusters (uniseg
-// iterator API), the width the terminal gives each cluster and UAX #14 break
-// opportunities. The end of a styled segment counts as an opportunity.
+// iterator API), the width the terminal gives each cluster (w: what the oracle
+// lays out with; u: the width of the Unicode tables, which only names the
+// rejection signature when the two differ) and UAX #14 break opportunities.
+// The end of a styled segment counts as an opportunity.
 func Items(cv *termcmd.Conv, segs []string) []map[string]any {
 	out := []map[string]any{}
 	for si, text := range segs {
@@ -124,7 +126,7 @@ func Items(cv *termcmd.Conv, segs []string) []map[string]any {
 			if gr.LineBreak() != uniseg.LineDontBreak {
 				b = 1
 			}
-			it := map[string]any{"k": "g", "g": 0, "w": 0, "s": si, "b": b}
+			it := map[string]any{"k": "g", "g": 0, "w": 0, "u": 0, "s": si, "b": b}
 			switch {
 			case s == "\t":
 				it["k"] = "tab"
@@ -133,6 +135,7 @@ func Items(cv *termcmd.Conv, segs []string) []map[string]any {
 			default:
 				it["g"] = cv.G.ID(s)
 				it["w"] = cv.AppWidth(s)
+				it["u"] = uniseg.StringWidth(s)
 			}
 			out = append(out, it)
 		}
@@ -197,7 +200,7 @@ func Run(ctx *Ctx, sc *Scn) (evs []trace.Ev, note string) {
 	refill := func(full bool) {
 		vx.Window().Fill(sentinel)
 		if full {
-			// a wide cell that got over an edge makes the terminal wrap or scroll, which the
+			// a glyph that got over the screen's edge makes the terminal wrap or scroll, which the
 			// library does not know of: repaint everything so that the rounds stay independent
 			vx.Refresh()
 			o := s.Con.Take()
@@ -289,7 +292,9 @@ func Run(ctx *Ctx, sc *Scn) (evs []trace.Ev, note string) {
 			return evs, note
 		}
 		evs = append(evs, chk)
-		refill(op.K == "set0" || op.K == "setw" || op.K == "fill0" || op.K == "fillw")
+		// (also after text in which the library and the terminal may disagree on a cluster's width)
+		refill(op.K == "set0" || op.K == "setw" || op.K == "fill0" || op.K == "fillw" ||
+			sc.Kind == "textwidth" || sc.Kind == "fixedwidth")
 	}
 	return evs, note
 }
@@ -450,6 +455,13 @@ func GenTrees(rng *rand.Rand, n int) []*Scn {
 // Alphabet classes: n narrow, s space, w wide, c combining mark, t tab, l newline.
 const classes = "nswctl"
 
+// Classes whose display width depends on the terminal (GenTextWidth):
+// e = "☺" + VS16: two cells where the terminal clusters per Unicode (mode 2027),
+// one where it adds up code points; v = U+FF9E, a halfwidth voiced sound mark that
+// extends the cluster before it: no cell of its own under Unicode clustering, one
+// more cell on a terminal that adds up code points ("aﾞ" = 1 or 2, "世ﾞ" = 2 or 3).
+const widthClasses = "nswev"
+
 var textFns = []string{"print", "println", "trunc", "wrap"}
 
 // Concrete turns a class string into text with distinct narrow/wide letters.
@@ -470,6 +482,10 @@ func Concrete(cls string) string {
 			wi++
 		case 'c':
 			sb.WriteString("\u0301")
+		case 'e':
+			sb.WriteString("\u263A\uFE0F")
+		case 'v':
+			sb.WriteString("\uFF9E")
 		case 't':
 			sb.WriteString("\t")
 		case 'l':
@@ -509,7 +525,9 @@ func randText(rng *rand.Rand, n int) Op {
 }
 
 // allClassStrings enumerates every class string of length 1..n.
-func allClassStrings(n int) []string {
+func allClassStrings(n int) []string { return classStrings(classes, n) }
+
+func classStrings(classes string, n int) []string {
 	var out []string
 	var rec func(prefix string)
 	rec = func(prefix string) {
@@ -554,6 +572,122 @@ func GenText(rng *rand.Rand, maxLen int, keep float64) []*Scn {
 	}
 	b.flush()
 	return b.out
+}
+
+// splitClasses cuts a class string into at most two styled segments, never
+// right before a class that extends the previous cluster.
+func splitClasses(rng *rand.Rand, cls string) []string {
+	if len(cls) < 2 || rng.Intn(3) != 0 {
+		return []string{Concrete(cls)}
+	}
+	k := 1 + rng.Intn(len(cls)-1)
+	if cls[k] == 'v' || cls[k] == 'c' {
+		return []string{Concrete(cls)}
+	}
+	return []string{Concrete(cls[:k]), Concrete(cls[k:])}
+}
+
+// WidthMasks: the capability sets that decide how wide a cluster is shown:
+// none (code points added up), Unicode core, Unicode core + explicit width,
+// explicit width alone.
+var WidthMasks = []int{0, 1 << 1, 1<<1 | 1<<14, 1 << 14}
+
+// GenTextWidth: every string up to maxLen over widthClasses that holds a
+// cluster whose width depends on the terminal, through every text helper, in
+// windows 1..5 columns wide strictly inside a 9x5 screen, on terminals with
+// and without Unicode core. On a terminal with explicit widths the library
+// does not turn Unicode core on and trusts the terminal to show a cluster that
+// Unicode measures as one cell in one cell; this harness's terminal adds up
+// code points whenever mode 2027 is off, which is not what a terminal that
+// implements explicit widths does: class v is left out there. keep < 1 samples (string, width, mask) triples.
+func GenTextWidth(rng *rand.Rand, maxLen int, keep float64) []*Scn {
+	var out []*Scn
+	for _, mask := range WidthMasks {
+		b := &batcher{kind: "textwidth", mask: mask, cols: 9, rows: 5, per: 24}
+		for _, cls := range classStrings(widthClasses, maxLen) {
+			if !strings.ContainsAny(cls, "ev") || (mask&(1<<14) != 0 && strings.Contains(cls, "v")) {
+				continue
+			}
+			for w := 1; w <= 5; w++ {
+				if keep < 1 && rng.Float64() >= keep {
+					continue
+				}
+				ch := []Level{{"new", 1, 1, w, 3}}
+				for _, fn := range textFns {
+					b.add(Round{ch, Op{K: fn, Row: rng.Intn(3), Segs: splitClasses(rng, cls)}})
+				}
+			}
+		}
+		b.flush()
+		out = append(out, b.out...)
+	}
+	return out
+}
+
+// ---- wide cells at right edges ------------------------------------------------
+
+// Graphemes handed over with Width 0 on terminals with and without Unicode
+// core: 2/2, 1/2, 2/1 and 4/2 cells (code points added up / Unicode).
+var autoGraphemes = []string{"中", "\u263A\uFE0F", "a\uFF9E", "\U0001F469\u200D\U0001F680"}
+
+// GenWideEdge: single cells and fills with two-cell content, Width explicit
+// and Width 0, at and around the right edge of windows whose right edge is
+// inside the screen, on the screen's edge (also in the bottom row, where an
+// overhanging glyph makes the terminal scroll) or beyond it, and of windows
+// cut by an ancestor. 5x3 screen. keep < 1 samples the geometries.
+func GenWideEdge(rng *rand.Rand, keep float64) []*Scn {
+	b := &batcher{kind: "wideedge", cols: 5, rows: 3, per: 24}
+	var chains [][]Level
+	for _, m := range modes {
+		for c := 0; c <= 4; c++ {
+			for _, w := range []int{1, 2, 3, 5, -1} {
+				for _, r := range []int{0, 2} {
+					chains = append(chains, []Level{{m, c, r, w, 1}})
+				}
+			}
+		}
+	}
+	for _, m := range modes[:2] { // the parent's right edge is the one that cuts
+		for pc := 0; pc <= 2; pc++ {
+			for _, pw := range []int{2, 3} {
+				for c := -1; c <= 1; c++ {
+					for _, r := range []int{0, 2} {
+						chains = append(chains, []Level{{"new", pc, 0, pw, 3}, {m, c, r, 4, 1}})
+					}
+				}
+			}
+		}
+	}
+	for _, ch := range chains {
+		if keep < 1 && rng.Float64() >= keep {
+			continue
+		}
+		for x := 0; x <= 5; x++ {
+			b.add(Round{ch, Op{K: "set0", C: x}})
+		}
+		b.add(Round{ch, Op{K: "setw", C: rng.Intn(6)}})
+		b.add(Round{ch, Op{K: "fill0"}})
+		b.add(Round{ch, Op{K: "fillw"}})
+	}
+	b.flush()
+	out := b.out
+	for _, mask := range []int{0, 1 << 1} {
+		bm := &batcher{kind: "wideedge", mask: mask, cols: 5, rows: 3, per: 24}
+		for _, g := range autoGraphemes {
+			for _, ch := range [][]Level{{{"new", 1, 0, 3, 1}}, {{"new", 2, 0, 3, 1}}, {{"new", 2, 2, 3, 1}}, {{"new", 0, 1, 5, 1}}} {
+				for x := 0; x <= 4; x++ {
+					if x < 2 && rng.Intn(2) == 0 {
+						continue
+					}
+					bm.add(Round{ch, Op{K: "set0", C: x, G: g}})
+				}
+				bm.add(Round{ch, Op{K: "fill0", G: g}})
+			}
+		}
+		bm.flush()
+		out = append(out, bm.out...)
+	}
+	return out
 }
 
 // GenTextRandom: longer seeded strings in seeded trees (clipped by ancestors).
@@ -622,5 +756,38 @@ func Fixed() []*Scn {
 		{[]Level{{"top", -1, -1, 9, 9}}, Op{K: "clear"}},
 		{[]Level{{"new", 1, 0, 2, 2}, {"new", 1, 0, 3, 1}}, Op{K: "setw", C: 0, R: 0}},
 	}
-	return []*Scn{{Kind: "fixed", Cols: 6, Rows: 3, Rounds: rounds}}
+	// cells whose Width is left at 0 (Vaxis measures them) and that do not fit:
+	// at a window's last column, at an ancestor's, at the screen's (the terminal
+	// wraps the glyph onto the next row; in the bottom row it scrolls)
+	wide := []Round{
+		{in3, Op{K: "set0", C: 2, R: 1}},
+		{in3, Op{K: "set0", C: 1, R: 1}},
+		{[]Level{{"new", 1, 0, 2, 2}, {"new", 1, 0, 3, 1}}, Op{K: "set0"}},
+		{[]Level{{"new", 1, 0, 2, 2}, {"raw", 0, 0, 3, 1}}, Op{K: "set0", C: 1}},
+		{in3, Op{K: "fill0"}},
+		{in3, Op{K: "fillw"}},
+		{[]Level{{"new", 1, 1, 4, 1}}, Op{K: "fill0"}},
+		{edge, Op{K: "fill0"}},
+		{edge, Op{K: "set0", C: 2, R: 0}},
+		{[]Level{{"new", 3, 2, 3, 1}}, Op{K: "set0", C: 2, R: 0}},
+		{[]Level{{"top", 5, 2, 3, 1}}, Op{K: "set0"}},
+	}
+	// clusters that a terminal without Unicode core (mask 0) shows narrower
+	// ("☺️": 1 cell) or wider ("aﾞ": 2 cells) than Unicode measures them
+	in13 := []Level{{"new", 1, 0, 3, 2}}
+	width := []Round{
+		{in13, Op{K: "wrap", Segs: []string{"\u263A\uFE0Fbcd"}}},
+		{in13, Op{K: "wrap", Segs: []string{"xya\uFF9E"}}},
+		{in13, Op{K: "print", Segs: []string{"\u263A\uFE0Fbcd"}}},
+		{in13, Op{K: "print", Segs: []string{"xya\uFF9E"}}},
+		{in13, Op{K: "println", Segs: []string{"xya\uFF9E"}}},
+		{in13, Op{K: "trunc", Segs: []string{"\u263A\uFE0Fbcd"}}},
+		{in13, Op{K: "wrap", Segs: []string{"a\uFF9E \u263A\uFE0Fb c"}}},
+	}
+	return []*Scn{
+		{Kind: "fixed", Cols: 6, Rows: 3, Rounds: rounds},
+		{Kind: "fixedwide", Cols: 6, Rows: 3, Rounds: wide},
+		{Kind: "fixedwidth", Cols: 6, Rows: 3, Rounds: width},
+		{Kind: "fixedwidth", Mask: 1 << 1, Cols: 6, Rows: 3, Rounds: width},
+	}
 }
